@@ -717,13 +717,116 @@ def run(prog, tier, res):
             res.hit(R11)
         else:
             res.violate(R11, PADHITS, "window:%s" % key_, "%s: found %s" % (what, json.dumps(pw.get(key_))[:500]), prog.body(PADHITS).where(), detail={"got": pw.get(key_), "want": wsp[key_]})
+    # ------------------------------------------------------------------ R12: the block scan of contiguous_ranges
+    R12 = res.rule("C13.R12", "contiguous_ranges finds the blocks with two cursors: both start at wire 0, the end cursor advances by one exactly while it is "
+                   "below 256 and its wire has a signal, a block (start, end) is recorded exactly when start < end, then start := end + 1 and end := start", 0)
+    sm = scan_model(prog)
+    res.extra["contiguous_ranges_scan"] = sm if sm is not None else "not the two-cursor form: the scan clause is not decided for this tree"
+    if sm is not None:
+        ssp = accept.load_spec("c13.json")["scan"]
+        for key_, what in (("push", "a block is recorded as (start cursor, end cursor) exactly when the start cursor is below the end cursor"),
+                           ("S", "the start cursor begins at wire 0 and is only ever moved to one past the end cursor"),
+                           ("E", "the end cursor begins at wire 0, advances by one exactly while it is below 256 and its wire carries a signal, and is otherwise only reset to the start cursor")):
+            if sm.get(key_) == ssp[key_]:
+                res.hit(R12)
+            else:
+                res.violate(R12, CONTIG, "scan:%s" % key_, "%s: found %s" % (what, json.dumps(sm.get(key_))[:600]), wc, detail={"got": sm.get(key_), "want": ssp[key_]})
     res.undecided = ["bit-identical equivariance of the floating-point kernels (Cholesky solve, greedy deconvolution, matching by sorted amplitude)",
-                     "contiguous_ranges: the scan loop that finds the blocks (the seam merge that follows it is R9)",
+                     "contiguous_ranges: a scan that is not in the two-cursor form of the pinned tree (R12 decides that form only; the seam merge that follows it is R9)",
                      "mirror image of the centroid formula itself in floating point (the window that feeds it is R11)"]
     res.assumptions = ["rotation by k pad columns is k applications of the one-column rotation checked here"]
 
 
 PADHITS = M + "pad_hits_at_t"
+
+
+def scan_model(prog):
+    """the block scan of contiguous_ranges as data, in role vocabulary: S / E = the two integer cursors that are pushed as
+    a pair inside the scan loops.  Returns None when the function is not in that two-cursor form (one push of a pair of
+    loop-carried integer locals inside a loop): the clause is then not decided.  Otherwise
+      push: {"value": "tuple{S,E}", "guards": [...]}        guards that dominate the push
+      S / E: sorted list of [value, guards] over every assignment to the cursor."""
+    from ..sym import atom_str
+    b = prog.body(CONTIG)
+    an = analysis(prog, b, positions=True)
+    sy = Sym(prog, an, slice_param=99)
+    tm = an.terms
+    lp = set()
+    for tl, h in b.back_edges():
+        lp |= set(b.natural_loop(tl, h))
+    if not lp:
+        return None
+    pushes = [(bb, t) for bb, t in b.calls() if bb in lp and short(cname(t)) == "Vec::<T, A>::push"]
+    if len(pushes) != 1:
+        return None
+    pbb, pt = pushes[0]
+    tm._pos = (pbb, "t")
+
+    def carried_int(l):
+        return b.locals[l]["ty"].get("k") == "int" and any(d[0] in lp for d in tm.defs.whole[l]) and any(d[0] not in lp for d in tm.defs.whole[l])
+
+    def operand_local(o, chase=True):
+        """the local an operand reads, through single-definition copies of temporaries"""
+        if not (isinstance(o, dict) and o.get("k") in ("copy", "move") and not (o.get("p") or {}).get("pr")):
+            return None
+        l = o["p"]["l"]
+        while chase and len(tm.defs.whole[l]) == 1 and b.locals[l].get("name") is None:
+            (bi, si, x) = tm.defs.whole[l][0]
+            if si == "t" or x.get("k") != "use":
+                break
+            o2 = x.get("o")
+            if not (isinstance(o2, dict) and o2.get("k") in ("copy", "move") and not (o2.get("p") or {}).get("pr")):
+                break
+            l = o2["p"]["l"]
+        return l
+
+    # the pushed value: an aggregate of two plain locals
+    arg = pt["args"][1]
+    al = operand_local(arg)
+    comp = None
+    if al is not None and len(tm.defs.whole[al]) == 1:
+        (bi, si, x) = tm.defs.whole[al][0]
+        if si != "t" and x.get("k") == "aggr" and len(x.get("ops", [])) == 2:
+            comp = [operand_local(o) for o in x["ops"]]
+    if not comp or None in comp or comp[0] == comp[1] or not all(carried_int(l) for l in comp):
+        return None
+    S, E = comp
+    # names of the cursors as the engine spells them at the push
+    names = {}
+    for role, l in (("S", S), ("E", E)):
+        names[role] = sy.arg_name(tm.local(l))
+    if names["S"] == names["E"]:
+        return None
+    order = sorted(names, key=lambda r: -len(names[r]))
+
+    def roles(txt):
+        for r in order:
+            txt = txt.replace(names[r], r)
+        return txt
+
+    def guards_at(bb):
+        ats = set()
+        for (d, rel, vals) in an.atoms_at(bb):
+            for a in sy.atoms(d, rel, vals):
+                ats.add(roles(atom_str(a)))
+        return sorted(ats)
+
+    out = {"push": {"value": "tuple{S,E}", "guards": guards_at(pbb)}}
+    for role, l in (("S", S), ("E", E)):
+        rows = []
+        for (bi, si, x) in tm.defs.whole[l]:
+            tm._pos = (bi, si)
+            if si != "t" and x.get("k") == "use" and operand_local(x.get("o")) in (S, E):
+                src = operand_local(x.get("o"))
+                v = "S" if src == S else "E"
+                # which version of the other cursor: the one assigned earlier in this very block, or the carried one
+                if any(bj == bi and sj != "t" and isinstance(sj, int) and isinstance(si, int) and sj < si for (bj, sj, _) in tm.defs.whole[src]):
+                    v += " (just assigned)"
+            else:
+                v = roles(sy.arg_name(tm.call_term(x, bi) if si == "t" else tm.rvalue(x)))
+            rows.append([v, guards_at(bi)])
+        out[role] = sorted(rows)
+    return out
 
 
 def pad_window(prog):
